@@ -69,7 +69,7 @@ theorem step_nl (s : Scan) (idx : Nat) :
                           start := idx + 1, tstart := idx + 1, trim := true, fin := idx + 1 } := by
   simp [scanStep]
 
-theorem step_other (s : Scan) (idx : Nat) (c : UInt8) (h : c ≠ 10) :
+theorem scan_step_other (s : Scan) (idx : Nat) (c : UInt8) (h : c ≠ 10) :
     scanStep s idx c =
       if s.trim = true ∧ isWhiteByte c = true then { s with tstart := s.tstart + 1 } else { s with trim := false } := by
   have : (c == 10) = false := by simp [h]
@@ -122,7 +122,7 @@ theorem loop_spec (b pre cur rest : Bytes) (s : Scan)
         have : ¬ (pre.length + lead cur < pre.length + cur.length) := by omega
         simp [this, hn]
     · have hc' : (c == 10) = false := by simp [hc]
-      have hst := step_other s (pre.length + cur.length) c hc
+      have hst := scan_step_other s (pre.length + cur.length) c hc
       have key := ih pre (cur ++ [c]) (scanStep s (pre.length + cur.length) c)
         (by simp [hb])
         (by intro x hx; simp at hx; rcases hx with h | h; exact hcur x h; exact h ▸ hc)
